@@ -139,3 +139,22 @@ def free_atoms(paths, env, subst=None, candidates=()):
         for test, _ in conds:
             visit(test)
     return found
+
+
+def outcome_implies(test, outcome, pred):
+    """pred(atom expression, polarity) holds for some atom that the outcome of `test` forces: conjunct of a true `and`,
+    disjunct of a false `or`, operand of `not` with the polarity swapped"""
+    if isinstance(test, ast.UnaryOp) and isinstance(test.op, ast.Not):
+        return outcome_implies(test.operand, not outcome, pred)
+    if isinstance(test, ast.BoolOp):
+        if isinstance(test.op, ast.And) and outcome:
+            return any(outcome_implies(v, True, pred) for v in test.values)
+        if isinstance(test.op, ast.Or) and not outcome:
+            return any(outcome_implies(v, False, pred) for v in test.values)
+        return False
+    return bool(pred(test, outcome))
+
+
+def every_path_requires(paths, pred):
+    """on every path some passed test forces pred"""
+    return bool(paths) and all(any(outcome_implies(t, o, pred) for t, o in conds) for conds in paths)
